@@ -6,6 +6,9 @@
   inner treespec is unflattened over them.  What `unflatten` builds is C01's subject.
 -/
 import OptreeModel.Model.Ops
+import OptreeModel.Lemmas.GraftBuild
+import OptreeModel.Properties.C01
+import OptreeModel.Properties.C02
 
 namespace Optree
 
@@ -115,5 +118,174 @@ theorem C10_wrong_count (cfg : Cfg) (outer inner : Spec) (t : PyObj) (r : PyObj)
 
 example : chunks 2 3 [.leaf 0 1, .leaf 0 2, .leaf 0 3, .leaf 0 4, .leaf 0 5, .leaf 0 6] =
     [[.leaf 0 1, .leaf 0 2], [.leaf 0 3, .leaf 0 4], [.leaf 0 5, .leaf 0 6]] := by rfl
+
+
+/-! ### transposition at the level of trees
+
+`tree_transpose(outer, inner, t)` = `inner.unflatten([outer.unflatten(col) for col in zip(*rows)])`.
+`Lemmas/GraftBuild.lean` says what `unflatten` builds when it is handed trees: the shape with the trees' shapes
+grafted onto its leaves, and the trees' leaves in order. -/
+
+theorem mapM_unflatten_graft (cfg : Cfg) (hreg : cfg.reg.OK) (hp : cfg.pred = Option.none) (to : PyObj)
+    (hwo : to.wf = true) (lo : List PyObj) (so : Spec) (ho : flatten cfg to = .ok (lo, so)) :
+    ∀ cols : List (List PyObj), (∀ c ∈ cols, c.length = lo.length) →
+      ∃ os, cols.mapM (unflatten so) = .ok os ∧ os.length = cols.length ∧
+        ∀ (j : Nat) (c : List PyObj) (o : PyObj), cols[j]? = some c → os[j]? = some o →
+          Gpost cfg (!cfg.insertionOrdered) to c o
+  | [], _ => ⟨[], rfl, rfl, by intro j c o h; simp at h⟩
+  | c :: cols, h => by
+      obtain ⟨o, hu, hg⟩ := unflatten_graft cfg hreg hp to hwo lo so ho c (h c (by simp))
+      obtain ⟨os, hm, hl, hall⟩ := mapM_unflatten_graft cfg hreg hp to hwo lo so ho cols
+        (fun c' hc' => h c' (by simp [hc']))
+      refine ⟨o :: os, by simp [List.mapM_cons, hu, hm, bind, Except.bind, pure, Except.pure], by simp [hl], ?_⟩
+      intro j c' o' h1 h2
+      cases j with
+      | zero => simp at h1 h2; subst h1; subst h2; exact hg
+      | succ j => simp at h1 h2; exact hall j c' o' h1 h2
+
+theorem flatMap_leaflike (f : PyObj → List PyObj) : ∀ c : List PyObj, (∀ x ∈ c, f x = [x]) → c.flatMap f = c
+  | [], _ => rfl
+  | y :: c, h => by
+      simp only [List.flatMap_cons]
+      rw [h y (by simp), flatMap_leaflike f c (fun x hx => h x (by simp [hx]))]
+      rfl
+
+theorem cfg_eta (cfg : Cfg) (hns : cfg.ns = "") :
+    ({ cfg with noneIsLeaf := cfg.noneIsLeaf, ns := "" } : Cfg) = cfg := by
+  cases cfg; simp_all
+
+/-- **`tree_transpose` at tree level** (global namespace, no predicate): for an outer tree with `m > 0` leaves, an
+inner tree with `n > 0` leaves and any tree `t` with `m * n` leaves, the result has the shape *inner-of-outer*
+(`compose` at tree level: every leaf of the inner shape replaced by the outer shape) and its leaves are the
+columns of the `m × n` leaf matrix of `t`, one after the other — the value at (inner leaf `j`, outer leaf `i`) is
+the input's value at (outer leaf `i`, inner leaf `j`) by `C10_transpose_rows` / `C10_chunks_get`. -/
+theorem C10_transpose_tree (cfg : Cfg) (hreg : cfg.reg.OK) (hp : cfg.pred = Option.none) (hns : cfg.ns = "")
+    (to ti t : PyObj) (hwo : to.wf = true) (hwi : ti.wf = true) (hwt : t.wf = true)
+    (lo : List PyObj) (so : Spec) (ho : flatten cfg to = .ok (lo, so))
+    (li : List PyObj) (si : Spec) (hi : flatten cfg ti = .ok (li, si))
+    (lt : List PyObj) (st : Spec) (ht : flatten cfg t = .ok (lt, st))
+    (hm : lo.length ≠ 0) (hn : li.length ≠ 0) (hcount : lt.length = lo.length * li.length) :
+    ∃ r, treeTranspose cfg so si t = .ok r ∧
+      shapeOf cfg (!cfg.insertionOrdered) r =
+        (shapeOf cfg (!cfg.insertionOrdered) ti).subst (shapeOf cfg (!cfg.insertionOrdered) to) ∧
+      leavesOf cfg (!cfg.insertionOrdered) r = (transposeRows (chunks li.length lo.length lt)).flatten := by
+  obtain ⟨sno, nlo⟩ := C01_flatten_sane cfg to lo so ho
+  obtain ⟨sni, nli⟩ := C01_flatten_sane cfg ti li si hi
+  obtain ⟨_, nlt⟩ := C01_flatten_sane cfg t lt st ht
+  obtain ⟨nso, nilo⟩ : (so.ns = cfg.ns ∨ so.ns = "") ∧ so.noneIsLeaf = cfg.noneIsLeaf := by
+    unfold flatten at ho; simp only at ho; split at ho
+    · simp at ho
+    · simp only [Except.ok.injEq, Prod.mk.injEq] at ho; obtain ⟨_, h2⟩ := ho; subst h2
+      simp only [and_true]; split <;> simp
+  obtain ⟨nsi, nili⟩ : (si.ns = cfg.ns ∨ si.ns = "") ∧ si.noneIsLeaf = cfg.noneIsLeaf := by
+    unfold flatten at hi; simp only at hi; split at hi
+    · simp at hi
+    · simp only [Except.ok.injEq, Prod.mk.injEq] at hi; obtain ⟨_, h2⟩ := hi; subst h2
+      simp only [and_true]; split <;> simp
+  have eso : so.ns = "" := by rcases nso with h | h <;> simp [h, hns]
+  have esi : si.ns = "" := by rcases nsi with h | h <;> simp [h, hns]
+  -- the columns
+  have hrows := C10_chunks_row_length li.length lo.length lt hcount
+  have hrl := chunks_length li.length lo.length lt
+  have hne : chunks li.length lo.length lt ≠ [] := by
+    intro e; rw [e] at hrl; simp at hrl; exact hm hrl.symm
+  have hcols := C10_transpose_rows (chunks li.length lo.length lt) li.length hne hrows
+  have hflat := C10_chunks_flatten li.length lo.length lt hcount
+  have hmem : ∀ c ∈ transposeRows (chunks li.length lo.length lt), c.length = lo.length ∧ ∀ x ∈ c, x ∈ lt := by
+    intro c hc
+    rw [hcols] at hc
+    simp only [List.mem_map, List.mem_range] at hc
+    obtain ⟨j, hj, rfl⟩ := hc
+    refine ⟨by simp [hrl], ?_⟩
+    intro x hx
+    simp only [List.mem_map] at hx
+    obtain ⟨r, hr, rfl⟩ := hx
+    have hlen := hrows r hr
+    have : r[j]! = r[j]'(by omega) := by simp [getElem!_pos, hlen, hj]
+    rw [this, ← hflat]
+    exact List.mem_flatten.mpr ⟨r, hr, List.getElem_mem _⟩
+  obtain ⟨os, hmap, hosl, hpost⟩ := mapM_unflatten_graft cfg hreg hp to hwo lo so ho
+    (transposeRows (chunks li.length lo.length lt)) (fun c hc => (hmem c hc).1)
+  have hcl : (transposeRows (chunks li.length lo.length lt)).length = li.length := by rw [hcols]; simp
+  obtain ⟨r, hur, hgr⟩ := unflatten_graft cfg hreg hp ti hwi li si hi os (by rw [hosl, hcl])
+  -- leaves of `t` are leaf-like
+  have hleaf : ∀ x ∈ lt, LeafLike cfg (!cfg.insertionOrdered) x := by
+    intro x hx
+    rw [C02_leaf_order cfg t lt st ht] at hx
+    exact leafLike_of_mem cfg hp _ t hwt x hx
+  obtain ⟨e_to, hlo⟩ := flatten_shapeOf cfg hp to hwo lo so ho
+  obtain ⟨e_ti, hli⟩ := flatten_shapeOf cfg hp ti hwi li si hi
+  -- every column tree has the outer shape and the column as its leaves
+  have hos : ∀ (j : Nat) (c : List PyObj) (o : PyObj), (transposeRows (chunks li.length lo.length lt))[j]? = some c →
+      os[j]? = some o → shapeOf cfg (!cfg.insertionOrdered) o = shapeOf cfg (!cfg.insertionOrdered) to ∧
+        leavesOf cfg (!cfg.insertionOrdered) o = c := by
+    intro j c o h1 h2
+    obtain ⟨g1, g2, _⟩ := hpost j c o h1 h2
+    obtain ⟨cl, cm⟩ := hmem c (List.mem_of_getElem? h1)
+    refine ⟨?_, ?_⟩
+    · rw [g1]
+      apply STree.graftN_leaves
+      · simp [cl, hlo]
+      · intro x hx
+        simp only [List.mem_map] at hx
+        obtain ⟨y, hy, rfl⟩ := hx
+        exact (hleaf y (cm y hy)).1
+    · rw [g2]
+      exact flatMap_leaflike _ c (fun x hx => (hleaf x (cm x hx)).2.1)
+  refine ⟨r, ?_, ?_, ?_⟩
+  · unfold treeTranspose
+    have hnil : (so.noneIsLeaf != si.noneIsLeaf) = false := by simp [nilo, nili]
+    have hz : (so.numLeaves == 0 || si.numLeaves == 0) = false := by
+      simp [nlo, nli, hm, hn]
+    have hcfg : ({ cfg with noneIsLeaf := so.noneIsLeaf, ns := "" } : Cfg) = cfg := by
+      rw [nilo]; exact cfg_eta cfg hns
+    simp only [hnil, Bool.false_eq_true, if_false, sno, sni, Bool.not_true, Bool.or_self, hz, eso, esi,
+      bne_self_eq_false, Bool.and_false, ite_self]
+    rw [hcfg, ht]
+    simp only [nlt, nlo, nli, hcount, bne_self_eq_false, Bool.false_eq_true, if_false, hmap, hur]
+  · rw [hgr.1]
+    have : os.map (shapeOf cfg (!cfg.insertionOrdered)) =
+        List.replicate (shapeOf cfg (!cfg.insertionOrdered) ti).leaves (shapeOf cfg (!cfg.insertionOrdered) to) := by
+      apply List.ext_getElem
+      · rw [List.length_map, List.length_replicate, hosl, hcl, hli]
+      · intro j h1 h2
+        simp only [List.getElem_map, List.getElem_replicate]
+        have hj : j < os.length := by simpa using h1
+        have hjc : j < (transposeRows (chunks li.length lo.length lt)).length := by rw [← hosl]; exact hj
+        exact (hos j _ os[j] (List.getElem?_eq_getElem hjc) (List.getElem?_eq_getElem hj)).1
+    rw [this, STree.graftN_replicate]
+  · rw [hgr.2.1]
+    have : ∀ (cs : List (List PyObj)) (ys : List PyObj), ys.length = cs.length →
+        (∀ (j : Nat) (c : List PyObj) (o : PyObj), cs[j]? = some c → ys[j]? = some o → leavesOf cfg (!cfg.insertionOrdered) o = c) →
+        ys.flatMap (leavesOf cfg (!cfg.insertionOrdered)) = cs.flatten := by
+      intro cs
+      induction cs with
+      | nil =>
+        intro ys hl _
+        have : ys = [] := by simpa using hl
+        subst this; rfl
+      | cons c cs ih =>
+        intro ys hl hall
+        cases ys with
+        | nil => simp at hl
+        | cons y ys =>
+          simp only [List.flatMap_cons, List.flatten_cons]
+          rw [hall 0 c y (by simp) (by simp), ih ys (by simpa using hl)
+            (fun j c' o' h1 h2 => hall (j + 1) c' o' (by simpa using h1) (by simpa using h2))]
+    exact this _ os hosl (fun j c o h1 h2 => (hos j c o h1 h2).2)
+
+
+/-- non-vacuity: outer `(*, *)`, inner `[*, *, *]`, the tree `([1,2,3], [4,5,6])` transposes to `[(1,4), (2,5), (3,6)]` -/
+example :
+    let cfg : Cfg := {}
+    let to := PyObj.tuple [.leaf 0 101, .leaf 0 102]
+    let ti := PyObj.list [.leaf 0 201, .leaf 0 202, .leaf 0 203]
+    let t := PyObj.tuple [.list [.leaf 0 1, .leaf 0 2, .leaf 0 3], .list [.leaf 0 4, .leaf 0 5, .leaf 0 6]]
+    (match flatten cfg to, flatten cfg ti with
+     | .ok (_, so), .ok (_, si) =>
+        (match treeTranspose cfg so si t with
+         | .ok r => r == PyObj.list [.tuple [.leaf 0 1, .leaf 0 4], .tuple [.leaf 0 2, .leaf 0 5], .tuple [.leaf 0 3, .leaf 0 6]]
+         | .error _ => false)
+     | _, _ => false) = true := by decide
 
 end Optree
